@@ -7,6 +7,8 @@ every value written to a fitness / coverage cache is range-asserted first.
 C10.mio-covered interprets MIOArchive.update over a grid of fitness values (incl. subnormal and sub-epsilon ones):
 the covering heuristic value 1.0 is handed to the population exactly for a fitness of zero.
 Numerical equality of fitness == 0 <=> covered for arbitrary traces is not decided.
+Further clauses (added later): C10.mio-covered interprets MIOArchive.update over a grid of fitness values: the
+heuristic value 1.0 (target covered) exactly for a fitness of zero.
 """
 
 from __future__ import annotations
